@@ -5,6 +5,7 @@ import (
 	"fmt"
 	"os"
 	"path/filepath"
+	"runtime/debug"
 	"strings"
 
 	"github.com/gopher-fleece/gleece/v2/common"
@@ -286,7 +287,7 @@ type irOut struct {
 func genSpecFromIR(d irDoc, version string) (res irSpecOut) {
 	defer func() {
 		if r := recover(); r != nil {
-			res = irSpecOut{Err: fmt.Sprintf("PANIC: %v", r)}
+			res = irSpecOut{Err: fmt.Sprintf("PANIC: %v | %s", r, panicSite())}
 		}
 	}()
 	ctrls, models := toDefinitions(d)
@@ -296,6 +297,21 @@ func genSpecFromIR(d irDoc, version string) (res irSpecOut) {
 		return irSpecOut{Err: classifySpecErr(err.Error())}
 	}
 	return irSpecOut{Doc: b}
+}
+
+// the first frames of the panicking goroutine that lie inside gleece
+func panicSite() string {
+	lines := strings.Split(string(debug.Stack()), "\n")
+	out := []string{}
+	for i, l := range lines {
+		if strings.Contains(l, "gopher-fleece/gleece") && !strings.Contains(l, "verifharness") && i+1 < len(lines) {
+			out = append(out, strings.TrimSpace(l)+" @ "+strings.TrimSpace(lines[i+1]))
+			if len(out) >= 3 {
+				break
+			}
+		}
+	}
+	return strings.Join(out, " <- ")
 }
 
 func classifySpecErr(msg string) string {
